@@ -258,38 +258,46 @@ Print Assumptions C08_state_tunnel_handshake_refuted.
 
 (* at storage-call granularity the two-call service (cas = false: GetState then SetState / DeleteState) is NOT safe: *)
 Theorem C08_state_disconnect_window_refuted :
-  exists sched, rloc (fst (rrun false (rs_old, [RDisc 7 1 10 0; RConnect 7 2 20]) sched)) 7 = None /\
-                snd (rrun false (rs_old, [RDisc 7 1 10 0; RConnect 7 2 20]) sched) = [RDone; RDone].
+  exists sched, rloc (fst (rrun false false (rs_old, [RDisc 7 1 10 0; RConnect 7 2 20]) sched)) 7 = None /\
+                snd (rrun false false (rs_old, [RDisc 7 1 10 0; RConnect 7 2 20]) sched) = [RDone; RDone].
 Proof. exact disconnect_window_refuted. Qed.
 Print Assumptions C08_state_disconnect_window_refuted.
 
 Theorem C08_state_touch_window_refuted :
-  exists sched, rloc (fst (rrun false (rs_old, [REnsure 7 1 10 0; RConnect 7 2 20]) sched)) 7 = Some (1%N, 10%N) /\
-                snd (rrun false (rs_old, [REnsure 7 1 10 0; RConnect 7 2 20]) sched) = [RDone; RDone].
+  exists sched, rloc (fst (rrun false false (rs_old, [REnsure 7 1 10 0; RConnect 7 2 20]) sched)) 7 = Some (1%N, 10%N) /\
+                snd (rrun false false (rs_old, [REnsure 7 1 10 0; RConnect 7 2 20]) sched) = [RDone; RDone].
 Proof. exact touch_window_refuted. Qed.
 Print Assumptions C08_state_touch_window_refuted.
 
 (* the repaired service (cas = true: touch = CompareAndSwap(read value -> touched value), rebuild = SetNX, matched delete =
-   CompareAndSwap(read value -> tombstone), each retried at most 3 times).  Let invocation i0 be ConnectClient(X, B, b) and
+   CompareAndSwap(read value -> tombstone), each retried at most 3 times; rot = with or without the rebuild-over-tombstone follow-up).  Let invocation i0 be ConnectClient(X, B, b) and
    let every other invocation be safe: heartbeats (EnsureClientOnline) of ANY connection of any client, cleanups
    (DisconnectClientIfMatch) of any connection other than (B, b), logins of other clients — at any point of their
    execution.  Then under EVERY schedule of storage calls: once the login has returned, the record names (B, b). *)
 Theorem C08_state_login_survives_all_schedules :
-  forall (X B b : N) (i0 : nat) (sched : list nat) (s : Threads.st rshared rprog),
-  (B <> 0%N \/ b <> 0%N) ->
+  forall (X B b : N) (rot : bool), (B <> 0%N \/ b <> 0%N) ->
+  forall (i0 : nat) (sched : list nat) (s : Threads.st rshared rprog),
   rinv X B b i0 s ->
-  nth_error (snd (rrun true s sched)) i0 = Some RDone ->
-  rloc (fst (rrun true s sched)) X = Some (B, b).
+  nth_error (snd (rrun true rot s sched)) i0 = Some RDone ->
+  rloc (fst (rrun true rot s sched)) X = Some (B, b).
 Proof. exact state_login_survives. Qed.
 Print Assumptions C08_state_login_survives_all_schedules.
 
-Theorem C08_state_cas_windows_closed :
-  forallb (fun sched => loc_is (rloc (fst (completed (rrun true (rs_old, [RDisc 7 1 10 0; RConnect 7 2 20]) sched))) 7) 2 20)
+Theorem C08_state_cas_windows_closed : forall rot : bool,
+  forallb (fun sched => loc_is (rloc (fst (completed rot (rrun true rot (rs_old, [RDisc 7 1 10 0; RConnect 7 2 20]) sched))) 7) 2 20)
           (all_scheds 6 2) = true /\
-  forallb (fun sched => loc_is (rloc (fst (completed (rrun true (rs_old, [REnsure 7 1 10 0; RConnect 7 2 20]) sched))) 7) 2 20)
+  forallb (fun sched => loc_is (rloc (fst (completed rot (rrun true rot (rs_old, [REnsure 7 1 10 0; RConnect 7 2 20]) sched))) 7) 2 20)
           (all_scheds 6 2) = true.
 Proof. exact cas_state_windows_closed. Qed.
 Print Assumptions C08_state_cas_windows_closed.
+
+(* after a matched delete the heartbeat of a still-registered older connection rebuilds the record at once only with
+   fixes/C08-rebuild-state-over-tombstone.diff (rot = true); without it the rebuild's SetNX meets the tombstone *)
+Theorem C08_state_rebuild_over_tombstone :
+  rloc (fst (rrun true true (rs_old, [RDisc 7 1 10 0; REnsure 7 3 30 0]) [0;0;1;1;1]%nat)) 7 = Some (3%N, 30%N) /\
+  rloc (fst (rrun true false (rs_old, [RDisc 7 1 10 0; REnsure 7 3 30 0]) [0;0;1;1;1]%nat)) 7 = None.
+Proof. exact rebuild_over_tombstone. Qed.
+Print Assumptions C08_state_rebuild_over_tombstone.
 
 Theorem C08_state_login_premises_satisfiable : rinv 7 2 20 2 moving_state_system.
 Proof. exact moving_state_rinv. Qed.
